@@ -1,5 +1,5 @@
 SPECIFICATION Spec
-CONSTANT Kinds = {"cell"}
+CONSTANT Kinds = {"edge"}
 INVARIANT Agree
 INVARIANT TypeOK
 VIEW view
